@@ -15,6 +15,8 @@
 #include <unistd.h>
 #include <fcntl.h>
 #include <sys/wait.h>
+#include <sys/time.h>
+#include <link.h>
 #include <deque>
 
 namespace vf {
@@ -184,7 +186,7 @@ inline Worker& W() { static Worker w; return w; }
 
 inline void set_current(const Case& c) {
     std::string s = c.str(); Worker& w = W();
-    if (w.case_timeout_s) alarm(w.case_timeout_s);   // re-armed for every case; a case that does not finish is dumped by on_alarm
+    if (w.case_timeout_s) { struct itimerval it; memset(&it, 0, sizeof it); it.it_value.tv_sec = w.case_timeout_s; setitimer(ITIMER_PROF, &it, nullptr); }   // CPU-time watchdog (not wall clock: a starved process on a loaded machine must not trip it), re-armed for every case; a case that burns this much CPU is dumped by on_alarm
     if (!w.in_child) { w.history.push_back(s); if (w.history.size() > 65) w.history.pop_front(); }
     w.cur_len = s.size() < sizeof(w.cur) ? s.size() : sizeof(w.cur);
     memcpy(w.cur, s.data(), w.cur_len);
@@ -295,6 +297,51 @@ inline int classify_failure(const Case& c, const std::string& msg) {
 // for enumeration loops: returns true if the run should stop (a failure was recorded)
 inline bool enum_fail(const Case& c, const std::string& msg) { int k = classify_failure(c, msg); if (k == 0) return false; if (k == 1) record_failure(c, msg); return true; }
 
+// ---------------------------------------------------------------- static storage of the library under test
+// The driver extracts from the linker map which parts of the executable's writable static storage (.data/.bss/COMMON)
+// come from the objects of libpolyseed.a (file <exe>.libstatics).  StaticGuard snapshots those bytes and reports which
+// of them an API call changed.  A byte may change once from zero (lazy one-time initialisation is tolerated); anything
+// that keeps changing is state the library carries from call to call.
+struct StaticGuard {
+    struct Region { uint8_t* p; size_t n; std::string name; std::vector<uint8_t> snap; std::vector<uint8_t> written; };
+    std::vector<Region> regions; bool loaded = false;
+    struct ExeInfo { uintptr_t base = 0, tls_vaddr = 0, tls_memsz = 0, tls_align = 1; bool has_tls = false; };
+    static int phdr_cb(struct dl_phdr_info* info, size_t, void* data) { // first entry = the executable
+        ExeInfo* e = (ExeInfo*)data; e->base = (uintptr_t)info->dlpi_addr;
+        for (int i = 0; i < info->dlpi_phnum; i++) if (info->dlpi_phdr[i].p_type == PT_TLS) { e->has_tls = true; e->tls_vaddr = info->dlpi_phdr[i].p_vaddr; e->tls_memsz = info->dlpi_phdr[i].p_memsz; e->tls_align = info->dlpi_phdr[i].p_align ? info->dlpi_phdr[i].p_align : 1; }
+        return 1; }
+    void load() {
+        if (loaded) return; loaded = true; char exe[600]; ssize_t n = readlink("/proc/self/exe", exe, sizeof exe - 20); if (n <= 0) return; exe[n] = 0;
+        std::string text = read_file(std::string(exe) + ".libstatics"); ExeInfo ei; dl_iterate_phdr(phdr_cb, &ei); uintptr_t base = ei.base; size_t pos = 0;
+        // thread-local statics of the library (main thread's copy; x86-64 TLS variant II: the executable's block ends at the thread pointer)
+        uintptr_t tp = (uintptr_t)__builtin_thread_pointer(); uintptr_t tls_start = ei.has_tls ? tp - ((ei.tls_memsz + ei.tls_align - 1) / ei.tls_align) * ei.tls_align : 0;
+        while (pos < text.size()) { size_t e = text.find('\n', pos); if (e == std::string::npos) e = text.size(); std::string line = text.substr(pos, e - pos); pos = e + 1;
+            unsigned long a = 0, sz = 0; char obj[200] = {0}, sec[100] = {0}; if (sscanf(line.c_str(), "%lx %lu %199s %99s", &a, &sz, obj, sec) < 4 || sz == 0 || strncmp(obj, "lang_", 5) == 0) continue;   // the ten word-table objects (1.3 MB of constant data) are left out
+            bool tls = sec[1] == 't'; if (tls && !ei.has_tls) continue;
+            Region r; r.p = tls ? (uint8_t*)(tls_start + (a - ei.tls_vaddr)) : (uint8_t*)(base + a); r.n = sz; r.name = std::string(obj) + " " + sec; r.snap.resize(sz); r.written.assign(sz, 0); regions.push_back(std::move(r)); }
+    }
+    size_t bytes() { load(); size_t t = 0; for (auto& r : regions) t += r.n; return t; }
+    // the regions contain the sanitizer's red zones between globals: they are read with plain loops in uninstrumented functions
+#if defined(__clang__)
+#define VF_NOASAN __attribute__((no_sanitize("address", "undefined")))
+#else
+#define VF_NOASAN __attribute__((no_sanitize_address))
+#endif
+    VF_NOASAN static void raw_copy(uint8_t* d, const volatile uint8_t* s, size_t n) { for (size_t i = 0; i < n; i++) d[i] = s[i]; }
+    VF_NOASAN static bool raw_equal(const uint8_t* a, const volatile uint8_t* b, size_t n) { for (size_t i = 0; i < n; i++) if (a[i] != b[i]) return false; return true; }
+    VF_NOASAN static uint8_t raw_get(const volatile uint8_t* p) { return *p; }
+    void snapshot() { load(); for (auto& r : regions) raw_copy(r.snap.data(), r.p, r.n); }
+    // returns "" or a description of the first byte that changed although it had been written before (or was non-zero)
+    std::string changed() {
+        for (auto& r : regions) { if (raw_equal(r.snap.data(), r.p, r.n)) continue;
+            for (size_t i = 0; i < r.n; i++) { uint8_t now = raw_get(r.p + i); if (r.snap[i] != now) { bool first_write_from_zero = r.snap[i] == 0 && !r.written[i]; r.written[i] = 1; r.snap[i] = now;
+                if (!first_write_from_zero) return r.name + " offset " + std::to_string(i); } } }
+        return "";
+    }
+    void accept() { for (auto& r : regions) raw_copy(r.snap.data(), r.p, r.n); }   // after inject / enable_features: whatever they wrote is the new baseline
+};
+inline StaticGuard& static_guard() { static StaticGuard g; return g; }
+
 // Each property binary defines these two.
 //   run():    generate cases, apply oracle, fill W().ev, call record_failure on violations
 //   replay(): apply the same oracle to one saved case; return "" if it holds, else a message
@@ -306,7 +353,7 @@ inline int worker_main(int argc, char** argv, const char* id, const Hooks& h) {
     snprintf(w.crash_path, sizeof w.crash_path, "%s.crash.case", w.base().c_str());
     snprintf(w.crash_tail, sizeof w.crash_tail, "property=%s\nvariant=%s\nmessage=crash (sanitizer report, abort or signal) while executing this case\n", w.args.id.c_str(), w.args.variant.c_str());
     snprintf(w.timeout_tail, sizeof w.timeout_tail, "property=%s\nvariant=%s\nmessage=the call under test did not return within the per-case time limit (normal duration: microseconds)\n", w.args.id.c_str(), w.args.variant.c_str());
-    install_crash_handlers(); signal(SIGALRM, on_alarm);
+    install_crash_handlers(); signal(SIGPROF, on_alarm);
     if (!w.args.replay.empty()) {
         std::string text = read_file(w.args.replay);
         if (Case::parse(text).kv.empty()) { fprintf(stderr, "cannot read replay file %s\n", w.args.replay.c_str()); return 2; }
